@@ -475,6 +475,8 @@ def href_stream(H, rep, drv, rng, n, stats, d: Path):
     H.ford_mod()
     from ford._markdown import MetaMarkdown
     import ford.external_project as xp
+    from translate import c16 as T
+    ned = T._probe_current_path()       # the placeholder directory of MetaMarkdown.convert ("non-existent dir")
     root = (d / "HW").resolve()
     cwds = [root / "w" / "B", root / "w" / "w", root / "q"]
     for c in cwds:
@@ -483,7 +485,7 @@ def href_stream(H, rep, drv, rng, n, stats, d: Path):
     ctx_urls = ["module/bmod.html", "proc/bsub.html", "type/t.html#boundprocedure-x", "module/bmod.html#variable-v",
                 "index.html", "sub/dir/deep/page.html", "lists/modules.html", "program/main.html"]
     names = ["A", "doc", "module", "geom.html", "type", "shape_t.html#variable-size", "w", "B", "q", "HW", "ext",
-             "non-existent dir", "proc", "setup~2.html", "x y", "m.html"]
+             ned, "proc", "setup~2.html", "x y", "m.html"]
     old_cwd = os.getcwd()
     mds = {}
     cases, reqs = [], []
@@ -494,7 +496,7 @@ def href_stream(H, rep, drv, rng, n, stats, d: Path):
             r = rng.random()
             if r < 0.7:
                 mode, ctx_url, path = "U", rng.choice(ctx_urls), None
-                cur = base / Path(ctx_url).parent.parent / "non-existent dir"
+                cur = base / Path(ctx_url).parent.parent / ned
             elif r < 0.9:
                 path = rng.choice([base, base / "page", base / "page" / "sub", cwd])
                 mode, ctx_url, cur = "P", None, path
@@ -503,7 +505,7 @@ def href_stream(H, rep, drv, rng, n, stats, d: Path):
             r = rng.random()
             if r < 0.55:      # an entity imported from a local path: a pathlib path below A's resolved location
                 start = rng.choice([root / "w" / "A" / "doc", cwd.parent / "A" / "doc", base / "ext" / "A", root.parent / "elsewhere" / "A",
-                                    base / "non-existent dir" / "A", Path("/"), root / "w" / "w" / "doc" / "A", cwd / "doc" / "A"])
+                                    base / ned / "A", Path("/"), root / "w" / "w" / "doc" / "A", cwd / "doc" / "A"])
                 url = start / rng.choice(["module/geom.html", "type/shape_t.html#variable-size", "proc/setup~2.html",
                                           "interface/gen.html", "module/geom.html#variable-origin"])
                 kind = "local"
@@ -553,7 +555,7 @@ def href_stream(H, rep, drv, rng, n, stats, d: Path):
             # inside B's `non-existent dir`; FORD not started at or below its own output directory (such a run does not
             # complete: the output directory is removed and re-made, the working directory is gone)
             if (mode == "U" and len(Path(ctx_url).parts) >= 2 and kind in ("local", "remote") and im[0] == "ok"
-                    and "non-existent dir" not in str(url) and base != cwd and base not in cwd.parents):
+                    and ned not in str(url) and base != cwd and base not in cwd.parents):
                 href = im[1]
                 if kind == "remote":
                     ok = href == url
